@@ -4,8 +4,8 @@ Declarative reading of property C01 on the *tree* (the input of the composed mod
 sources-and-precedence rules attribute to them (C04's `SpecItem`) and the entries of
 LICENSES/ (C06's `Provided`, `carried`).  The glue notions — which bytes are a file's own
 source, which REUSE.toml tables form its chain, which files are licence texts — have their
-own declarative statements (`OwnSourceIs`, `LicIn`; theorems `C01_e2e_own_source`,
-`C01_e2e_level_last_match`, `C01_e2e_tomls`, `C01_e2e_licences`).
+own declarative statements (`OwnSourceIs`, `LicIn` / `LinkedText`; theorems `C01_e2e_own_source`,
+`C01_e2e_level_last_match`, `C01_e2e_tomls`, `C01_e2e_licences`, `C01_e2e_linked_text`).
 -/
 import ReuseVerif.Model.LintE2E
 import ReuseVerif.Spec.Covered
@@ -99,11 +99,36 @@ inductive OwnSourceIs (tree : ETree) (dir : List String) (name : String) (conten
   | self : (∀ b, ¬ EAt tree (dir ++ [name ++ ".license"]) (.file b)) →
       (∀ sub, ¬ EAt tree (dir ++ [name ++ ".license"]) (.dir sub)) → OwnSourceIs tree dir name content (.bytes content false)
 
-/-- below a directory of LICENSES/ (`path`, entries `cs`) the relative path `rel` is a licence text:
-    a regular file reached through real directories, no component hidden -/
+/-- below a directory of LICENSES/ (entries `cs`) the relative path `rel` is a licence text: a regular
+    file, or a symbolic link that resolves to one (named by the link's own name), reached through real
+    directories and symbolic links that resolve to directories, no component hidden -/
 inductive LicIn : List (String × ENode) → List String → Prop where
   | file {cs name b} : (name, ENode.file b) ∈ cs → hiddenName name = false → LicIn cs [name]
   | dir {cs name sub rel} : (name, ENode.dir sub) ∈ cs → hiddenName name = false → LicIn sub rel →
       LicIn cs (name :: rel)
+  | linkFile {cs name b} : (name, ENode.symlink (.file b)) ∈ cs → hiddenName name = false → LicIn cs [name]
+  | linkDir {cs name sub rel} : (name, ENode.symlink (.dir sub)) ∈ cs → hiddenName name = false → LicIn sub rel →
+      LicIn cs (name :: rel)
+
+/-! The same said entry by entry: what `stat` (which follows symbolic links) finds at a node. -/
+
+/-- a regular file, or a symbolic link that resolves to one -/
+def FileOrLinkToFile (n : ENode) : Prop := (∃ b, n = .file b) ∨ (∃ b, n = .symlink (.file b))
+
+/-- a directory with entries `sub`, or a symbolic link that resolves to one -/
+def DirOrLinkToDir (n : ENode) (sub : ETree) : Prop := n = .dir sub ∨ n = .symlink (.dir sub)
+
+/-- following the components of `p` from a directory with entries `cs` — through directories and
+    through symbolic links that resolve to directories — leads to the entry `n` (itself not followed) -/
+inductive LAt : ETree → List String → ENode → Prop where
+  | last {cs name n} : (name, n) ∈ cs → LAt cs [name] n
+  | step {cs name d sub p n} : (name, d) ∈ cs → DirOrLinkToDir d sub → LAt sub p n → LAt cs (name :: p) n
+
+/-- the LICENSES/ entry at `rel` (below the directory with entries `cs`) is a licence text of the
+    project as far as the file system goes: no component of `rel` is hidden, the directories on the
+    way are real or linked ones, the entry is a regular file or a link that resolves to one
+    (a dangling link is not; the name filter `*.license` is `isLicFile`, applied to the path) -/
+def LinkedText (cs : ETree) (rel : List String) : Prop :=
+  ∃ n, LAt cs rel n ∧ FileOrLinkToFile n ∧ ∀ x ∈ rel, hiddenName x = false
 
 end Spec
